@@ -4,6 +4,10 @@
 // Contracts for package cluster (build tag verif only; no executable code).
 package cluster
 
+import "google.golang.org/grpc"
+
+var _ *grpc.ClientConn
+
 //@ spec distinctIds(s []uint64) bool = forall i int, j int :: 0 <= i && i < j && j < len(s) ==> s[i] != s[j]
 
 // NodeIds: a fresh slice holding every key of the address book exactly once.
@@ -37,14 +41,40 @@ package cluster
 //@ ensures [C20 no-address-keeps-known-address] len(address) == 0 && old(has(this.addresses, id)) ==> this.addresses[id] == old(this.addresses[id])
 //@ ensures [C20 first-listing] !old(has(this.addresses, id)) ==> this.addresses[id] == address
 //@ ensures [others] forall j uint64 :: j != id ==> has(this.addresses, j) == old(has(this.addresses, j)) && this.addresses[j] == old(this.addresses[j])
+//@ ensures [C20 changed-address-drops-the-connection] old(has(this.addresses, id)) && len(address) > 0 && old(this.addresses[id]) != address ==> !has(this.conns, id)
 //@ modifies map(this.addresses), map(this.conns)
 
 //@ func (*cluster.Conn).RemoveNode
 //@ props C20
 //@ requires [book] this.addresses != nil && this.conns != nil && forall j uint64 :: has(this.conns, j) ==> this.conns[j] != nil
 //@ ensures [unlisted] !has(this.addresses, id)
+//@ ensures [C20 removed-node-has-no-connection] old(has(this.addresses, id)) ==> !has(this.conns, id)
 //@ ensures [others] forall j uint64 :: j != id ==> has(this.addresses, j) == old(has(this.addresses, j)) && this.addresses[j] == old(this.addresses[j])
 //@ modifies map(this.addresses), map(this.conns)
+
+// C20 ("... with the same addresses, so it can still reach every peer"): Dial hands out the connection the book currently
+// stands for: the one kept for the node, or a new one dialled to the node's CURRENT address (and then kept); a node without
+// an address cannot be dialled. Whoever needs a client builds it on what Dial returns, every time (see the three client
+// getters in storage and storage/raft): a client kept elsewhere would survive the replacement of the connection.
+//@ ufunc dialledAddress(*grpc.ClientConn) string
+//@ func google.golang.org/grpc.Dial
+//@ props C20
+//@ assume
+//@ ensures [conn-xor-error] isnil(ret1) ==> ret0 != nil && fresh(ret0) && dialledAddress(ret0) == target
+//@ modifies nothing
+//@ func (*cluster.Conn).grpcDialOptions
+//@ props C20
+//@ assume
+//@ modifies nothing
+
+//@ func (*cluster.Conn).Dial
+//@ props C20
+//@ requires [book] this.addresses != nil && this.conns != nil && forall j uint64 :: has(this.conns, j) ==> this.conns[j] != nil
+//@ ensures [C20 the-kept-connection] isnil(ret1) ==> ret0 != nil && has(this.conns, id) && this.conns[id] == ret0
+//@ ensures [C20 new-connections-go-to-the-current-address] isnil(ret1) && !old(has(this.conns, id)) ==> has(this.addresses, id) && dialledAddress(ret0) == this.addresses[id]
+//@ ensures [C20 unknown-node-is-an-error] !old(has(this.conns, id)) && !has(this.addresses, id) ==> !isnil(ret1) && ret0 == nil
+//@ ensures [others] forall j uint64 :: j != id ==> has(this.conns, j) == old(has(this.conns, j)) && this.conns[j] == old(this.conns[j])
+//@ modifies map(this.conns)
 
 // Nodes: a fresh copy of the book (callers may mutate the copy)
 //@ func (*cluster.Conn).Nodes
